@@ -98,6 +98,20 @@ def parse_spec(path):
                 # @struct src/screen.rs CharOpts Cursor ...
                 for nm in toks[2:]:
                     u.items.append((head, toks[1], nm))
+            elif head == 'import':
+                # @import other.spec fnA fnB ... : the functions' contracts (their @sig) are taken from another unit's spec
+                # and ASSUMED here (emitted as external_body); they are proved in that other unit.
+                flush()
+                other = parse_spec(os.path.join(os.path.dirname(path), toks[1]))
+                for nm in toks[2:]:
+                    cand = [f for f in other.fns if f.name == nm]
+                    if not cand:
+                        raise WeaveError('%s:%d: @import: %s not found in %s' % (path, ln, nm, toks[1]))
+                    f = cand[0]
+                    g = FnSpec(f.src_name, dict(f.opts, extern='1', imported=toks[1]))
+                    g.sections = [sec for sec in f.sections if sec[0] == 'sig']
+                    u.fns.append(g)
+                cur_fn = None
             elif head == 'fn':
                 flush()
                 opts, rest = parse_kv(toks[1:])
@@ -436,7 +450,8 @@ def build_unit(spec_path, repo, contracts_dir, shim_table, force_extern=None):
             spin += '/*@w<*/#[verifier::loop_isolation(false)]/*@w>*/\n'
         fn_texts.append((fs, '//@FN< %s\n%s%s\n//@FN> %s\n' % (fs.name, spin, woven, fs.name)))
         fn_info[fs.name] = dict(src=rel, line=s.lineno(a), impl=hdr, text=text, props=fs.props, extern=fs.extern,
-                                shims=fs.shims, degraded=degraded, src_name=fs.src_name, implname=fs.impl)
+                                shims=fs.shims, degraded=degraded, src_name=fs.src_name, implname=fs.impl,
+                                imported=fs.opts.get('imported'))
 
     # the round-trip check against the files themselves
     for rel, t in roundtrip:
